@@ -163,6 +163,7 @@ func VerifPegBatch() {
 	vrt.Assert("C03.multi-request-batch-balances-exact", gotUSD == wantUSD && gotPEG == balPEG+paid)
 	vrt.Assert("C04.multi-request-batch-supply", gotUSD == wantUSD && gotPEG == balPEG+paid)
 	vrt.Assert("C16.requests-of-one-batch-share-the-bank", gotPEG == balPEG+paid && paid <= specBank)
+	vrt.Assert("C16.refund-returns-exactly-the-unconverted-part", gotUSD == wantUSD)
 	for i := range amts {
 		vrt.Assert("C17.each-request-records-its-own-yield", uint64(vrtToAmount(tx, entry.Hash, i)) == yield[i])
 		vrt.Assert("C16.each-request-records-its-own-yield", uint64(vrtToAmount(tx, entry.Hash, i)) == yield[i])
